@@ -8,23 +8,24 @@
     The faithful builder model REFUTES it ([build_preserves_refuted_*], witnesses replayed on
     the real CFGBuilder by check.py).
 
-    PROVED (partial): the expression level and the branch level of the simulation —
-      [expr_builder_preserves_partial]   on lift-free expressions ExprBuilder creates no block
-                                         and no temporary and returns an expression with the
-                                         same Python meaning (negative constants folded);
-      [branch_build_preserves_partial]   for every condition of the decidable fragment
-                                         [frag_cond] (not/and/or/conditional expressions over
-                                         lift-free leaves, True/False constants), in every graph
-                                         extending the builder's output, control runs from the end
-                                         of the current block to the TRUE target exactly when
-                                         Python finds the condition truthy and to the FALSE target
-                                         otherwise, with Python's state and call trace
-                                         (short-circuit order), for every oracle and state.
-    NOT PROVED (missing for [build_preserves_partial] at statement level): the induction over
-    [visit_stmts] (while/break/continue/return wiring) and the reachability/pruning pass of
-    [build]; these are covered by the CFG-equality tie and the semantic search only. *)
+    PROVED: [build_preserves_partial] — for every function body of the decidable fragment
+    [frag_stmts] (Frag.v): assignments to names and tuples of names, augmented assignments,
+    expression statements and return with lift-free expressions (no and/or, conditional
+    expression, walrus or chained comparison in value position); if/elif/else, while, break,
+    continue, pass, return, nested arbitrarily, unreachable code after jumps included; branch
+    conditions in [frag_cond] (not/and/or/conditional expressions over lift-free leaves,
+    True/False constants, and chained comparisons whose operands are lift-free and whose middle
+    operands are also call-free) — for every oracle, initial state and fuel on which the Python
+    semantics terminates normally (return or falling off the end), the CFG that the model of
+    CFGBuilder.build produces (after update_reachable and pruning) runs from the entry block
+    to the exit block with the same returned value, the same store and the same call trace;
+    and every terminating run of that CFG gives that result ([build_preserves_partial_unique]).
+    Supporting theorems: [expr_builder_preserves_partial], [branch_build_preserves_partial].
+    NOT PROVED: lifted expressions (and/or/conditional expression/walrus/chained comparison in
+    value position, the [safe_stmts] fragment of DESIGN A.2) and chained comparisons whose last
+    operand is lifted; these are covered by the CFG-equality tie and the semantic search only. *)
 From Coq Require Import ZArith List Bool.
-From V.C03 Require Import PyAst PySem Cfg CfgSem Builder Encode Frag Witness ProofsRefute ProofsBase ProofsExpr ProofsBranch.
+From V.C03 Require Import PyAst PySem Cfg CfgSem Builder Encode Frag Witness ProofsRefute ProofsBase ProofsExpr ProofsBranch ProofsBuild.
 Import ListNotations.
 
 (* v1 = (v0 + (v0 := 5)): Python adds the old v0, the CFG computes 5 + 5 *)
@@ -101,5 +102,55 @@ Proof.
   split. { eexists; split; vm_compute; reflexivity. }
   split. { unfold opn; simpl; repeat split; auto. }
   split. { unfold exit_idx; simpl; repeat constructor. }
+  eexists. vm_compute. reflexivity.
+Qed.
+
+(* ---------------------------------------------------------------------------------------- *)
+(* the statement-level theorem: CFGBuilder.build preserves the Python meaning on frag_stmts *)
+Theorem build_preserves_partial : forall oracle p returns_none g s,
+  frag_stmts p = true -> build p returns_none = BOk g s ->
+  forall fuel st v st', exec_py oracle fuel p st = Done (v, st') ->
+  exists fuel', run_cfg oracle g fuel' st = Done (v, st').
+Proof. exact build_preserves_frag. Qed.
+Print Assumptions build_preserves_partial.
+
+(* ... and the CFG cannot terminate with anything else *)
+Theorem build_preserves_partial_unique : forall oracle p returns_none g s,
+  frag_stmts p = true -> build p returns_none = BOk g s ->
+  forall fuel st v st', exec_py oracle fuel p st = Done (v, st') ->
+  forall fuel' r, run_cfg oracle g fuel' st = Done r -> r = (v, st').
+Proof.
+  intros oracle p rn g s F B fuel st v st' X fuel' r R.
+  destruct (build_preserves_frag oracle p rn g s F B fuel st v st' X) as (f2&R2).
+  unfold run_cfg in *. eapply run_done_unique; eauto.
+Qed.
+Print Assumptions build_preserves_partial_unique.
+
+(* the hypotheses are satisfiable on a non-trivial program:
+     while (-1 <= v0 < 3) and (not (v0 == v1)):
+         v0 += 1
+         if ((v0 == 2) if v3 else (v0 == 1)):
+             continue
+         elif v2:
+             break
+         f0(v0)
+     return (v0, v1)
+     v2 = 5                                                                     *)
+Definition ex_prog : stmts :=
+  SCons (SWhile (EBool BoAnd (ECmp (EUnary UNeg (i 1)) (CMore CLe (v 0) (CLast CLt (i 3)))) (EUnary UNot (ECmp (v 0) (CLast CEq (v 1)))))
+           (SCons (SAug 0 BAdd (i 1))
+           (SCons (SIf (EIf (v 3) (ECmp (v 0) (CLast CEq (i 2))) (ECmp (v 0) (CLast CEq (i 1))))
+                       (one SContinue)
+                       (one (SIf (v 2) (one SBreak) SNil)))
+           (one (SExpr (ECall 0 (ECons (v 0) ENil)))))) SNil)
+  (SCons (SReturn (Some (ETuple (ECons (v 0) (ECons (v 1) ENil)))))
+  (one (SAssign (TName (VU 2)) (i 5)))).
+Example build_hypotheses_satisfiable :
+  frag_stmts ex_prog = true /\
+  (exists g s, build ex_prog false = BOk g s /\ length g = 13) /\
+  (exists st', exec_py test_oracle 30 ex_prog st0 = Done (VTuple [VInt 1; VInt 1], st')).
+Proof.
+  split. { reflexivity. }
+  split. { eexists. eexists. split; vm_compute; reflexivity. }
   eexists. vm_compute. reflexivity.
 Qed.
